@@ -424,7 +424,6 @@ pub fn run(args: &[String]) -> ! {
     }
     ctx.set("evaluations", evals);
     ctx.set("distinct_nontrivial", nontrivial);
-    ctx.set("entries_returned_and_judged", returned);
     ctx.set("profile_sets", sets.len() as u64);
     ctx.set("rule", format!("profile sets (none, each of {n} generated search profiles = 2 receiver groups x 3 target scopes x 4 attribute lists, and pairs: all in thorough / 8 chosen in quick) on top of the shipped profiles x caller memberships of the two receiver groups x 20 filters (equality / presence on name, mail, displayname, class; AND, OR, AND-NOT, nested) x 3 requested-attribute lists, through search_ext and exists as a read-only identity. Non-trivial = a returned entry whose grant involves a generated profile or an attribute beyond class/uuid/name/spn"));
     ctx.set("mismatches", nbad);
